@@ -2,8 +2,9 @@
    Theorems only; every proof is [exact <lemma>] or a witness checked by vm_compute; Print Assumptions under each.
    Model: Model/Graph.v (one node per Ovld object; [step] = one public operation; [run ops] = the graph after the
    history [ops] from nothing).  Every statement quantifies over ALL finite histories.
-   The model follows the code after the repairs 7f4d316 (lock() also locks every mixin of the locked node, recursively)
-   and 7be068c (add_mixins ends with _update() when it added something).
+   The model follows the code after the repairs 7f4d316 (lock() also locks every mixin of the locked node, recursively),
+   7be068c (add_mixins ends with _update() when it added something) and ad8ac70 (compile calls _lock_parents: a parent
+   that lists this node as a linkback child stays open, but its own parents are treated the same way, recursively).
    Observable of a node ([obs]): the table snapshot of its last build if it is in use, else what a first use would build.
    Abstraction: a node's behaviour IS its effective table (signature key -> method); dispatch over a table is the
    Resolve component's business.
@@ -29,30 +30,20 @@ Theorem C16_overlay : forall ops n x t, let g := run ops in
 Proof. intros ops n x t. exact (overlay_defns (run ops) n x t (Inv_run ops)). Qed.
 Print Assumptions C16_overlay.
 
-(* FULL STATEMENT (still false of the faithful model, see C16_overlay_refuted_unused_link):
-     in every history, every node's observable is the overlay of its parents' observables and its own table.
-   PROVED for the histories in the decidable domain [stale_free] (Model/Graph.v) = complement of the one remaining finding
-   class KF-43: no successful register / unregister / add_mixins on a node from which a used node derives without being
-   reached by the linkback propagation.  (Before the repairs the domain also excluded KF-18 -- now refused by the
-   transitive lock -- and every add_mixins on a used node, KF-40 -- now rebuilt and propagated.) *)
-Theorem C16_overlay_used_partial : forall ops n x t, stale_free ops = true -> let g := run ops in
+(* FULL (no domain left): in every history, every node's observable is the overlay of its parents' observables and its
+   own table.  (Before the repairs this held only outside the classes KF-18, KF-40, KF-43.) *)
+Theorem C16_overlay_used : forall ops n x t, let g := run ops in
   g_get g n = Some x -> obs g n = Some t ->
   exists pts, Forall2 (fun m pt => obs g m = Some pt) (n_mixins x) pts /\
               forall k, t_get k t = overlay_get k pts (n_own x).
 Proof. exact overlay_used. Qed.
-Print Assumptions C16_overlay_used_partial.
+Print Assumptions C16_overlay_used.
 
-(* KF-43: f0 <- f1 (plain copy, never used) <- f2 (linkback copy of f1, used).  f1 is not locked (f2 is a linkback child),
-   so nothing locks f0; f0.register succeeds, is not propagated (f1 is not a linkback child of f0): f2 keeps the old table *)
-Definition kf43_history : list op :=
-  [OCreate [] false; ORegister 0 0 1; OCopy 0 [] false; OCopy 1 [] true; OUse 2; ORegister 0 1 9].
-
-Theorem C16_overlay_refuted_unused_link :
-  exists ops n, stale_free ops = false /\ snd (step (run (removelast ops)) (last ops (OUse 0))) = Done /\
-                obs (run ops) n = Some [((0, 0%Z), 1)] /\
-                defns (length (run ops)) (run ops) n = Some [((0, 0%Z), 1); ((1, 0%Z), 9)].
-Proof. exists kf43_history, 2. vm_compute. repeat split; reflexivity. Qed.
-Print Assumptions C16_overlay_refuted_unused_link.
+(* ... because no node is ever out of date: the observable of every node of every history is what a rebuild would give now *)
+Theorem C16_always_fresh : forall ops n, n < length (run ops) ->
+  obs (run ops) n = defns (length (run ops)) (run ops) n.
+Proof. exact always_fresh. Qed.
+Print Assumptions C16_always_fresh.
 
 (* ---------- isolation ---------- *)
 (* an operation on N (for the constructors: the node they create) changes the observable of no node that does not
@@ -87,14 +78,21 @@ Theorem C16_locked_refuses : forall g o x, is_modification o = true -> g_get g (
 Proof. exact locked_refuses. Qed.
 Print Assumptions C16_locked_refuses.
 
-(* FULL: once c is in use, every function c derives from through a path whose first derivation is not a linkback one is
-   locked -- the direct parent m, and everything m derives from through derivations of either kind
-   (plain paths of any length: the old KF-18; plain-then-linkback paths as well) *)
-Theorem C16_lock : forall ops c y m a, let g := run ops in
-  g_get g c = Some y -> n_compiled y = true -> n_linkback y = false -> In m (n_mixins y) -> Anc g a m ->
-  exists w, g_get g a = Some w /\ n_locked w = true.
+(* FULL: once c is in use, take any node v from which c derives through linkback derivations only (c itself included)
+   and that is not itself a linkback derivation: every parent m of v, and everything m derives from through derivations
+   of either kind, is locked.  With v = c: plain paths of any length (the old KF-18) and plain-then-linkback paths;
+   with v above c: the non-propagating ancestors of the linkback parents of a used node (the old KF-43). *)
+Theorem C16_lock : forall ops c yc v y m a, let g := run ops in
+  g_get g c = Some yc -> n_compiled yc = true -> Lb g v c -> g_get g v = Some y -> n_linkback y = false ->
+  In m (n_mixins y) -> Anc g a m -> exists w, g_get g a = Some w /\ n_locked w = true.
 Proof. exact lock_full. Qed.
 Print Assumptions C16_lock.
+
+(* consequently whoever can still be modified and has a used descendant reaches it by propagation *)
+Theorem C16_modifiable_reaches : forall ops N xN c yc, let g := run ops in
+  g_get g N = Some xN -> n_locked xN = false -> g_get g c = Some yc -> n_compiled yc = true -> Anc g N c -> Lb g N c.
+Proof. intros ops N xN c yc. exact (unlocked_anc_lb (run ops) N xN c yc (Inv_run ops) (LK_run ops)). Qed.
+Print Assumptions C16_modifiable_reaches.
 
 (* the statement that was refuted before the repair of KF-18, now a theorem *)
 Theorem C16_lock_plain_paths : forall ops c y a, let g := run ops in
@@ -131,7 +129,7 @@ Proof. vm_compute. repeat split; reflexivity. Qed.
 Example C16_kf40_repaired :
   let ops := [OCreate [] false; ORegister 0 0 1; OCreate [] false; ORegister 1 1 2; OUse 0; OAddMixins 0 [1]] in
   obs (run ops) 0 = Some [((1, 0%Z), 2); ((0, 0%Z), 1)] /\ fresh_b (run ops) 0 = true /\
-  map (fun x => n_locked x) (run ops) = [false; true] /\ stale_free ops = true.
+  map (fun x => n_locked x) (run ops) = [false; true].
 Proof. vm_compute. repeat split; reflexivity. Qed.
 
 (* KF-40, linkback side: the used linkback child of f0 sees the parent f0 acquires later *)
@@ -140,11 +138,20 @@ Example C16_kf40_linkback_repaired :
   obs (run ops) 1 = Some [((1, 0%Z), 2); ((0, 0%Z), 1)] /\ fresh_b (run ops) 1 = true.
 Proof. vm_compute. repeat split; reflexivity. Qed.
 
-(* ---------- non-vacuity of the domain ---------- *)
-Example C16_domains_inhabited :
+(* KF-43 (fixed ad8ac70): f0 <- f1 (plain copy, never used) <- f2 (linkback copy of f1, used): using f2 leaves f1 open
+   (its changes propagate) but locks f0; f0.register is refused; f1.register still succeeds and shows up in f2 *)
+Example C16_kf43_repaired :
+  let ops := [OCreate [] false; ORegister 0 0 1; OCopy 0 [] false; OCopy 1 [] true; OUse 2] in
+  step (run ops) (ORegister 0 1 9) = (run ops, Locked) /\
+  map (fun x => n_locked x) (run ops) = [true; false; false] /\
+  snd (step (run ops) (ORegister 1 1 9)) = Done /\
+  obs (step_g (run ops) (ORegister 1 1 9)) 2 = Some [((0, 0%Z), 1); ((1, 0%Z), 9)].
+Proof. vm_compute. repeat split; reflexivity. Qed.
+
+(* ---------- a non-trivial history ---------- *)
+Example C16_history_example :
   let ops := [OCreate [] false; ORegister 0 0 1; OCopy 0 [] true; OCopy 0 [] false; OUse 1; ORegister 0 1 2;
               OUse 2; ORegister 0 2 3; OVariant 1 [] false 3 4; OUse 3; OAddMixins 2 [3]] in
-  stale_free ops = true /\
   map (fun o => snd o) (map (step (run (firstn 7 ops))) [ORegister 0 2 3]) = [Locked] /\
   obs (run ops) 1 = Some [((0, 0%Z), 1); ((1, 0%Z), 2)] /\
   obs (run ops) 3 = Some [((0, 0%Z), 1); ((1, 0%Z), 2); ((3, 0%Z), 4)] /\
